@@ -3,6 +3,26 @@
 import json, sys
 
 CHECKS = {
+ "C05": ("trace monitor (candidate-set automaton over State::score() calls) on scripted and Spy-wrapped real states across the optimiser configuration space at kt_start = 0",
+         "Exploration: ~4k (quick) / ~200k (thorough) runs, tens of millions of observed steps: every accept/reject decision that the parameter vectors resolve is checked (no worse score accepted), and the returned score is compared with the input score, over kt_finish/kt_ratio/steps/inner_steps/convergence/step/seed, through the CLI parser (kt_finish unset) and the builder API.",
+         "Decisions are inferred from bit patterns of the parameter vectors at the State boundary; unresolved decisions are never used.",
+         "DESIGN.md 3.2, 5 C05"),
+ "C06": ("trace monitor: bit-for-bit vector comparison of every evaluated state against all possible current states, adversarial scripted accept/reject histories + real states",
+         "Exploration: ~5k (quick) / ~240k (thorough) runs with k = 1..24 parameters, scripted reject runs / alternation / undefined scores, bounds hit on every move or never, parameters starting outside their range, all temperatures: each evaluated vector must differ from a possible current state in at most one parameter and the returned state must be a possible current state. Sanitizer leg (Miri on the UnsafeCell undo mechanism) in the thorough tier.",
+         "Observation at the State boundary only; single-parameter states cannot resolve decisions (set semantics).",
+         "DESIGN.md 3.2, 5 C06"),
+ "C07": ("trace monitor for the deterministic clauses + anchor/probe/sentinel acceptance-frequency estimator with Chernoff/KL bounds for exp(-d/kT)",
+         "Exploration / statistical: deterministic clauses on ~20M resolved decisions (quick); acceptance frequencies of 84 (d,kT,k) cells with 2e4 (quick) / 1e6 (thorough) probes each, flagged only when a conservative tail bound is < 1e-12; lag-1 autocorrelation of accept flags.",
+         "A probability is estimated, not proved; deviations below ~3% relative at n = 1e6 are invisible.",
+         "DESIGN.md 5 C07"),
+ "C18": ("per-loop acceptance-frequency inference of the temperature from scripted probes vs the interval of schedules the property allows",
+         "Exploration / statistical: 103 schedule configurations (ratio, finish, both, neither, zero; 1..50 loops and thousands of tiny loops; jammed stretches of fully rejected loops) with 2e4 (quick) / 6e5 (thorough) probes per loop; windows of loops are compared with the probability interval implied by the allowed temperature interval, Chernoff/KL bound < 1e-12 to flag.",
+         "Temperature is inferred, resolution ~1.3/sqrt(n) per window; 'neither' pins only the first loop.",
+         "DESIGN.md 5 C18"),
+ "C19": ("trace monitor: size of every proposal's single-parameter move against every possible parent, under scripted rejection histories",
+         "Exploration: ~5k (quick) / ~240k (thorough) runs, ~30M proposals (quick): largest move in units of half the parameter range must not exceed max_step_size, for 0..100% rejection per loop, 1..50 loops, steps 1e-4..1, k = 1..24, and real states with the declared ranges.",
+         "Measured against the most favourable possible parent (conservative).",
+         "DESIGN.md 5 C19"),
  "C03": ("differential runtime monitor: PotentialState::score vs exhaustive lattice sum over every image within cutoff + metamorphic re-descriptions of one crystal",
          "Exploration: ~0.3M (quick) / ~19M (thorough) LJ states of all groups (circle, trimers) from strongly overlapping to dilute, each compared with an exhaustive per-molecule lattice sum (1e-9 of term magnitudes; 3% of the attractive sum for the uncut circle) and with equivalent descriptions (copy moved across a cell face, origin shifted by normaliser translations). One open known finding (images beyond the third shell inside the cutoff) is reported as KNOWN-FINDING and keyed by an oracle-computed predicate.",
          "The pair kernel is the library's LJ2::energy (decided by C13), cross-checked against the independent law for like particles.",
